@@ -435,7 +435,7 @@ def make_fitter(model_dir, case, av_range, distance_range=None):
     else:
         dr = distance_range
     return Fitter(fnames, aps, model_dir, extinction_law=law, av_range=list(av_range), distance_range=dr,
-                  use_memmap=bool(case.get('memmap', False)))
+                  use_memmap=bool(case.get('memmap', False)), remove_resolved=bool(case.get('remove_resolved', False)))
 
 
 # ------------------------------------------------------------------------------------------------
